@@ -31,17 +31,27 @@ Record case := {
   c_lot : lobs;                (* A  1 AAPL {EXPR} / B   *)
   c_assert : lobs;             (* A  0 = EXPR / B        *)
   c_assign : lobs;             (* A  = EXPR / B          *)
-  c_declared : option fobs     (* ... all seven again under declared precisions *)
+  c_declared : option fobs;    (* ... all seven again under declared precisions *)
+  c_typed : list robs          (* okane primitive eval with the expression typed in other ways:
+                                  no outer group, wrapped once / twice, `(a) op (b)`, one argv
+                                  word per token, blanks around - the command joins the words and
+                                  evaluates them as one group, so each is the same expression *)
 }.
 Definition C (t : vexpr) (ts : list token) (p : option vexpr) (e c : robs) (o1 o2 o3 o4 o5 : lobs) : case :=
   {| c_tree := t; c_tokens := ts; c_parsed := p; c_eval := e; c_cli := c;
-     c_posting := o1; c_cost := o2; c_lot := o3; c_assert := o4; c_assign := o5; c_declared := None |}.
+     c_posting := o1; c_cost := o2; c_lot := o3; c_assert := o4; c_assign := o5; c_declared := None; c_typed := [] |}.
 Definition CF (t : vexpr) (ts : list token) (p : option vexpr) (e c : robs) (o1 o2 o3 o4 o5 : lobs)
            (fm : list (cid * nat)) (fe fc : robs) (f1 f2 f3 f4 f5 : lobs) : case :=
   {| c_tree := t; c_tokens := ts; c_parsed := p; c_eval := e; c_cli := c;
      c_posting := o1; c_cost := o2; c_lot := o3; c_assert := o4; c_assign := o5;
      c_declared := Some {| f_fmts := fm; f_eval := fe; f_cli := fc; f_posting := f1; f_cost := f2;
-                           f_lot := f3; f_assert := f4; f_assign := f5 |} |}.
+                           f_lot := f3; f_assert := f4; f_assign := f5 |}; c_typed := [] |}.
+Definition CFS (t : vexpr) (ts : list token) (p : option vexpr) (e c : robs) (o1 o2 o3 o4 o5 : lobs)
+           (fm : list (cid * nat)) (fe fc : robs) (f1 f2 f3 f4 f5 : lobs) (typed : list robs) : case :=
+  {| c_tree := t; c_tokens := ts; c_parsed := p; c_eval := e; c_cli := c;
+     c_posting := o1; c_cost := o2; c_lot := o3; c_assert := o4; c_assign := o5;
+     c_declared := Some {| f_fmts := fm; f_eval := fe; f_cli := fc; f_posting := f1; f_cost := f2;
+                           f_lot := f3; f_assert := f4; f_assign := f5 |}; c_typed := typed |}.
 
 (* ---- equality of trees ---- *)
 Definition ocid_eqb (a b : option cid) : bool :=
@@ -234,6 +244,7 @@ Definition classify (c : case) : N :=
   let shape := match c_parsed c with Some p => vexpr_eqb p t | None => false end in
   let spec :=
     shape && spec_value ap t (c_eval c) && spec_value ap t (c_cli c)
+    && forallb (spec_value ap t) (c_typed c)
     && spec_posting ap 0 t (c_posting c) && spec_rate ap 0 t (c_cost c) && spec_rate ap 0 t (c_lot c)
     && spec_assert ap 0 t (c_assert c) && spec_assign ap 0 t (c_assign c)
     && match c_declared c with
@@ -248,6 +259,7 @@ Definition classify (c : case) : N :=
   let model :=
     presult_is (parse_value_expr (c_tokens c)) t
     && robs_cmp ap (c_eval c) (model_value t) && robs_cmp ap (c_cli c) (model_value t)
+    && forallb (fun r => robs_cmp ap r (model_value t)) (c_typed c)
     && lobs_cmp ap (c_posting c) (process (pos_posting t))
     && lobs_cmp ap (c_cost c) (process (pos_cost t))
     && lobs_cmp ap (c_lot c) (process (pos_lot t))
